@@ -54,18 +54,20 @@ SHAPES = {
     'rules-old-symlink-data': {'layout': 'old', 'rules': 'rules', 'symlink_data': True},   # data/ is an absolute symlink to a folder kept elsewhere (a synced drive)
     'rules-old-absdata':  {'layout': 'old', 'rules': 'rules', 'absdata': True},
     'csv-old-absdata':    {'layout': 'old', 'rules': 'csv', 'absdata': True},
+    # the config folder has another name (tally up <dir> / TALLY_CONFIG accept any folder): only `up <dir> --migrate` applies to it
+    'csv-old-oddname':    {'layout': 'old', 'rules': 'csv', 'cfg_name': 'cfg-2025', 'only': ('migrate',)},
 }
 COMMANDS = ['migrate', 'init', 'update']
 QUICK = [('csv-old', 'migrate'), ('csv-old-bak', 'init'), ('csv-old-output', 'update'), ('csv-new', 'migrate'), ('csv-old-commented-key', 'migrate'),
          ('rules-old-absdata', 'update'), ('csv-old', 'migrate', 'other-filesystem'), ('csv-old-empty-key', 'migrate'), ('csv-old-altsettings', 'migrate'),
-         ('csv-old-commented-key', 'init'), ('rules-old-symlink-data', 'update')]
+         ('csv-old-commented-key', 'init'), ('rules-old-symlink-data', 'update'), ('csv-old-oddname', 'migrate')]
 OTHER_FS = '/dev/shm'        # a file system other than the one holding the system temp directory (if this machine has one)
 
 
 def build(root, shape):
     sp = SHAPES[shape]
     base = os.path.join(root, 'tally') if sp['layout'] == 'new' else root
-    cfg = os.path.join(base, 'config')
+    cfg = os.path.join(base, sp.get('cfg_name', 'config'))
     os.makedirs(cfg)
     if sp.get('symlink_data'):
         ext = os.path.join(os.path.dirname(root), os.path.basename(root) + '-elsewhere', 'statements')
@@ -119,7 +121,7 @@ def rnd_free_choice(key, options):
 
 def cmd_args(cmd, shape, root):
     sp = SHAPES[shape]
-    cfg_rel = 'tally/config' if sp['layout'] == 'new' else 'config'
+    cfg_rel = 'tally/config' if sp['layout'] == 'new' else sp.get('cfg_name', 'config')
     if cmd == 'migrate':
         return ['up', cfg_rel, '--migrate', '-q'] + (['--settings', ALT] if sp.get('altsettings') else [])
     if cmd == 'init':
@@ -163,7 +165,8 @@ ALT = 'settings-2024.yaml'
 def classification(root):
     """`tally up` as the user would run it from the budget root (auto-detected config dir), fresh process."""
     alt = ['--settings', ALT] if (os.path.exists(os.path.join(root, 'config', ALT)) or os.path.exists(os.path.join(root, 'tally', 'config', ALT))) else []
-    p = B.tally(root, 'up', *alt, '--format', 'json', '-v', '-q')
+    odd = [n for n in ('cfg-2025',) if os.path.isdir(os.path.join(root, n))]      # a config folder tally cannot find by itself is named on the command line
+    p = B.tally(root, 'up', *odd, *alt, '--format', 'json', '-v', '-q')
     if p.returncode != 0:
         return {'failed': (p.stderr or p.stdout).strip().splitlines()[-1][:120] if (p.stderr or p.stdout).strip() else 'exit %d' % p.returncode}
     try:
@@ -226,7 +229,7 @@ def judge_point(rec, shape, cmd, k, mode, eff_k, baseline, tmp, log):
         # an interrupted migration may have left a converted merchants.rules next to the CSV that is still in use.  The user keeps working
         # (adds a rule to the CSV) and runs the command again: whatever it does then, the rule added since is in effect afterwards.
         sp = SHAPES[shape]
-        cfgd = os.path.join(root, 'tally', 'config') if sp['layout'] == 'new' else os.path.join(root, 'config')
+        cfgd = os.path.join(root, 'tally', 'config') if sp['layout'] == 'new' else os.path.join(root, sp.get('cfg_name', 'config'))
         csvp, rulesp = os.path.join(cfgd, 'merchant_categories.csv'), os.path.join(cfgd, 'merchants.rules')
         if mode.startswith('crash') and cmd in ('migrate', 'init') and sp['rules'] == 'csv' and not sp.get('stray') and os.path.exists(csvp) and os.path.exists(rulesp) \
                 and 'map' in baseline and baseline['map'].get('SOME UNKNOWN VENDOR') == ['Unknown', 'Unknown'] and csv_in_use(cfgd):
@@ -278,7 +281,7 @@ def run(rec, shard, nshards, t):
     xdirs = []
     log = os.path.join(tempfile.gettempdir(), 'vt-c15-%d.log' % os.getpid())
     try:
-        pairs = QUICK if t == 'quick' else [(s, c) for s in SHAPES for c in COMMANDS] + [(s, c, 'other-filesystem') for s in ('csv-old', 'csv-new', 'csv-old-views')
+        pairs = QUICK if t == 'quick' else [(s, c) for s in SHAPES for c in COMMANDS if c in SHAPES[s].get('only', COMMANDS)] + [(s, c, 'other-filesystem') for s in ('csv-old', 'csv-new', 'csv-old-views')
                                                                                              for c in ('migrate', 'init')]
         idx = 0
         tmp_home = tmp
